@@ -388,6 +388,9 @@ func (p *Prog) callEffects(fi *FuncInfo, info *types.Info, call *ast.CallExpr, e
 		if strings.HasSuffix(full, "opa/rego.Rego.PrepareForEval") || strings.HasSuffix(full, "opa/rego.PreparedEvalQuery.Eval") {
 			e.Ghost["opa"] = true
 		}
+		if strings.HasSuffix(full, "json-gold/ld.JsonLdProcessor.Flatten") {
+			e.Ghost["ld"] = true
+		}
 		switch full {
 		case "time.Now":
 			e.Nondet["time.Now:"+fi.Name] = "time.Now at " + p.pos(call)
